@@ -6,6 +6,7 @@ import (
 	"go/constant"
 	"go/token"
 	"go/types"
+	"regexp"
 	"strconv"
 	"strings"
 
@@ -37,12 +38,14 @@ type TV struct {
 
 // Heap is a snapshot: array name -> current term. Missing entries denote the base symbol.
 type Heap struct {
-	cur map[string]Term
+	cur   map[string]Term
+	epoch string // non-empty after a havoc-everything event: unseen arrays get epoch-specific symbols
 }
 
 func newHeap() *Heap { return &Heap{cur: map[string]Term{}} }
 func (h *Heap) clone() *Heap {
 	n := newHeap()
+	n.epoch = h.epoch
 	for k, v := range h.cur {
 		n.cur[k] = v
 	}
@@ -58,7 +61,7 @@ type Env struct {
 	tparams  map[string]types.Type
 	depth    int
 	locals   func(e *Env, name string) (TV, bool) // late-bound lookup of program variables (loop invariants, captured variables)
-	sideCond *[]Term                      // definedness conditions (unused for now)
+	facts    *[]Term                      // heap well-formedness facts about values read (hoistable ones only)
 }
 
 func (e *Env) child() *Env {
@@ -525,7 +528,7 @@ func (e *Env) selectField(base TV, name string, n ast.Node) TV {
 		ck := typeKey(base.S.Go)
 		for _, b := range vc.specs.Bindings {
 			if b.Concrete == ck && b.Field == name {
-				be := &Env{vc: vc, pkg: b.Pkg, vars: map[string]TV{b.RecvName: base}, heap: e.heap, old: e.old, tparams: e.typeArgEnv(named)}
+				be := &Env{vc: vc, pkg: b.Pkg, vars: map[string]TV{b.RecvName: base}, heap: e.heap, old: e.old, tparams: e.typeArgEnv(named), facts: e.facts}
 				be.depth = e.depth
 				return be.tr(b.Expr)
 			}
@@ -574,6 +577,7 @@ func (e *Env) selectField(base TV, name string, n ast.Node) TV {
 			for _, idx := range path {
 				cur = vc.stepField(e.heap, cur, idx)
 			}
+			e.noteAllocated(cur)
 			return cur
 		}
 		// ghost field on an interface reached through a concrete implementer, or unique by name
@@ -604,6 +608,27 @@ func (e *Env) concreteTypeOf(b *Binding) types.Type {
 		t = types.NewPointer(t)
 	}
 	return t
+}
+
+var boundVarRe = regexp.MustCompile(`_q\d+`)
+
+// noteAllocated records that a reference read from the heap denotes an allocated object of that heap.
+func (e *Env) noteAllocated(v TV) {
+	if e.facts == nil || v.S.Go == nil || boundVarRe.MatchString(v.T) {
+		return
+	}
+	top := e.vc.hget(e.heap, "top", "Int")
+	switch v.S.Sort {
+	case "Int":
+		if isRefLike(v.S.Go) {
+			*e.facts = append(*e.facts, app("<=", v.T, top), app(">=", v.T, "0"))
+		}
+	case "Slice":
+		*e.facts = append(*e.facts, app("<=", app("sid", v.T), top), app(">=", app("sid", v.T), "0"), app(">=", app("slen", v.T), "0"), app(">=", app("soff", v.T), "0"),
+			implies(eq(app("sid", v.T), "0"), eq(app("slen", v.T), "0")))
+	case "Iface":
+		*e.facts = append(*e.facts, implies(not(eq(v.T, "iface_nil")), app("<=", app("pl", v.T), top)))
+	}
 }
 
 func pkgTypes(p *packages.Package) *types.Package {
@@ -685,7 +710,7 @@ func (e *Env) trIndex(x *ast.IndexExpr) TV {
 		case *types.Slice:
 			es := sortOf(u.Elem())
 			el := vc.hget(e.heap, elemsArr(es), elemsSort(es))
-			return TV{T: app("select", app("select", el, app("sid", a.T)), app("+", app("soff", a.T), i.T)), S: goSType(u.Elem())}
+			return TV{T: app("select", app("select", el, app("sid", a.T)), app("idx", a.T, i.T)), S: goSType(u.Elem())}
 		case *types.Map:
 			ks, vs := sortOf(u.Key()), sortOf(u.Elem())
 			mv := vc.hget(e.heap, mapValArr(ks, vs), fmt.Sprintf("(Array Int (Array %s %s))", ks, vs))
@@ -712,7 +737,7 @@ func (e *Env) applySpecFunc(sf *SpecFunc, args []TV, n ast.Node) TV {
 	if len(args) != len(sf.Params) {
 		e.fail(n, "spec func %s expects %d arguments", sf.Name, len(sf.Params))
 	}
-	se := &Env{vc: vc, pkg: sf.Pkg, vars: map[string]TV{}, heap: e.heap, old: e.old, depth: e.depth, tparams: e.tparams}
+	se := &Env{vc: vc, pkg: sf.Pkg, vars: map[string]TV{}, heap: e.heap, old: e.old, depth: e.depth, tparams: e.tparams, facts: e.facts}
 	for i, p := range sf.Params {
 		a := args[i]
 		// keep the caller's (more precise) Go type; the declared type only fixes nil literals
@@ -738,6 +763,30 @@ func (e *Env) applySpecFunc(sf *SpecFunc, args []TV, n ast.Node) TV {
 			return TV{T: "sf_" + sf.Name, S: res}
 		}
 		return TV{T: app("sf_"+sf.Name, ts...), S: res}
+	}
+	if sf.Defined {
+		res := se.resolveType(sf.Result)
+		var sorts []Sort
+		var ts []Term
+		var bound []string
+		de := &Env{vc: vc, pkg: sf.Pkg, vars: map[string]TV{}, heap: newHeap(), old: newHeap(), tparams: e.tparams}
+		var bts []Term
+		for i, p := range sf.Params {
+			pt := se.resolveType(p.Type)
+			sorts = append(sorts, pt.Sort)
+			ts = append(ts, args[i].T)
+			bn := fmt.Sprintf("d%d_%s", i, p.Name)
+			bound = append(bound, fmt.Sprintf("(%s %s)", bn, pt.Sort))
+			bts = append(bts, bn)
+			de.vars[p.Name] = TV{T: bn, S: pt}
+		}
+		fn := "sf_" + sf.Name
+		if !vc.d.seen[fn] {
+			vc.d.declFun(fn, sorts, res.Sort)
+			body := de.tr(sf.Body)
+			vc.d.axiom(fmt.Sprintf("(forall (%s) (! (= %s %s) :pattern (%s)))", strings.Join(bound, " "), app(fn, bts...), body.T, app(fn, bts...)))
+		}
+		return TV{T: app(fn, ts...), S: res}
 	}
 	out := se.tr(sf.Body)
 	return out
@@ -876,6 +925,47 @@ func (e *Env) trCall(x *ast.CallExpr) TV {
 			ts = append(ts, e.tr(a).T)
 		}
 		return TV{T: app(vc.applyFun(sig, e.tparams), ts...), S: goSType(sig.Results().At(0).Type())}
+	case "tag":
+		// tag(s, i): ghost slot tag of element i of slice s
+		v := e.tr(arg(0))
+		i := e.tr(arg(1))
+		if v.S.Sort != "Slice" {
+			e.fail(x, "tag: not a slice")
+		}
+		return TV{T: app("select", app("select", vc.hget(e.heap, "Tags", tagsSort), app("sid", v.T)), app("idx", v.T, i.T)), S: stInt}
+	case "oldat", "oldtag":
+		// oldat(s, i) / oldtag(s, i): element / ghost tag i of slice s in the old state, the index taken in the current state
+		v := e.tr(arg(0))
+		i := e.tr(arg(1))
+		u, ok := types.Unalias(v.S.Go).Underlying().(*types.Slice)
+		if !ok {
+			e.fail(x, "%s: not a slice", id.Name)
+		}
+		if id.Name == "oldtag" {
+			return TV{T: app("select", app("select", vc.hget(e.old, "Tags", tagsSort), app("sid", v.T)), app("idx", v.T, i.T)), S: stInt}
+		}
+		es := sortOf(u.Elem())
+		el := vc.hget(e.old, elemsArr(es), elemsSort(es))
+		return TV{T: app("select", app("select", el, app("sid", v.T)), app("idx", v.T, i.T)), S: goSType(u.Elem())}
+	case "top":
+		return TV{T: vc.hget(e.heap, "top", "Int"), S: &SType{Sort: "Int"}}
+	case "backing":
+		v := e.tr(arg(0))
+		if v.S.Sort != "Slice" {
+			e.fail(x, "backing: not a slice")
+		}
+		return TV{T: app("sid", v.T), S: &SType{Sort: "Int"}}
+	case "callpre":
+		f := e.tr(arg(0))
+		sig, ok := types.Unalias(f.S.Go).Underlying().(*types.Signature)
+		if !ok {
+			e.fail(x, "callpre: not a function value")
+		}
+		ts := []Term{f.T}
+		for _, a := range x.Args[1:] {
+			ts = append(ts, e.tr(a).T)
+		}
+		return TV{T: app(vc.applyPreFun(sig), ts...), S: stBool}
 	case "elems":
 		// elems(s): the logical array of a slice's backing store, for frame targets
 		v := e.tr(arg(0))
